@@ -7,7 +7,7 @@ import itertools
 import z3
 from mirsym.interp import *
 from mirsym.values import *
-from mirsym.models import deref, DAYFN, day_axioms, CHRONO_MIN, CHRONO_MAX
+from mirsym.models import deref, DAYFN, day_axioms, rem_day, CHRONO_MIN, CHRONO_MAX
 from .lib import *
 from .c01 import ROOMS
 
@@ -45,7 +45,7 @@ def shapes(tier):
     for nn in (0, 1, 2):
         for ne in (0, 1):
             for nu in (0, 1):
-                if nn + ne + nu:
+                if nn + ne + nu and (tier == 'thorough' or nn + ne + nu <= 3):
                     out.append(dict(part='deletion', nodes=nn, edges=ne, updated=nu))
     out.append(dict(part='room_mutation'))
     for kind in ('node', 'edge'):
@@ -78,6 +78,9 @@ def covered(marks, req):
 
 def decide(ctx, w, report, dm, reqs, info):
     marks = marks_of(w, dm)
+    for rq in reqs:
+        if not rq.date.concrete:
+            rem_day(ctx, rq.date.z())      # the oracle's own day terms get the same lazy definition
     info['marks'] = marks
     info['reqs'] = reqs
     report.path(True)
@@ -145,12 +148,20 @@ def new_marks(ctx, w):
     return ctx.call(ctx.method('DailyMutations', 'default', 'Default'), [])
 
 
-def explore(ctx, shape, tier, report):
+def explore(ctx, shape, tier, report, dates_in_range=True):
     part = shape['part']
-    ctx.dates_in_range = True
+    ctx.dates_in_range = dates_in_range
 
     def path(ctx):
         w = World(ctx)
+        if dates_in_range:
+            orig_i64 = w.i64
+
+            def ranged(name):
+                v = orig_i64(name)
+                ctx.add(z3.And(v.v >= CHRONO_MIN, v.v <= CHRONO_MAX))
+                return v
+            w.i64 = ranged
         reqs = []
         dm = new_marks(ctx, w)
         dmc = Cell(dm)
